@@ -523,17 +523,17 @@ def slices_cases(draw):
 SUBCHECKS = [
     SubCheck('exact_weights', exact_cases(), check_exact,
              "non-trivial = the exact mask has >=1 pixel with 0<w<1",
-             quick=(16, 120), thorough=(16, 8000)),
+             quick=(16, 500), thorough=(16, 8000)),
     SubCheck('center_subpixel', center_cases(), check_center_subpixel,
              'non-trivial = fractional weights present (subpixel) or both 0 '
-             'and 1 present (center)', quick=(16, 150), thorough=(16, 8000)),
+             'and 1 present (center)', quick=(16, 500), thorough=(16, 8000)),
     SubCheck('rect_exact', rect_cases(), check_rect_exact,
              'non-trivial = fractional weights present',
-             quick=(8, 100), thorough=(16, 4000)),
+             quick=(16, 300), thorough=(16, 4000)),
     SubCheck('bbox_minimal', bbox_cases(), check_bbox,
              'non-trivial = no extent within tolerance of a half-integer '
-             '(unambiguous minimal box)', quick=(8, 250), thorough=(16, 10000)),
+             '(unambiguous minimal box)', quick=(16, 800), thorough=(16, 10000)),
     SubCheck('overlap_slices', slices_cases(), check_slices,
              'non-trivial = box clipped by the image on >=1 side (or empty)',
-             quick=(8, 400), thorough=(16, 20000)),
+             quick=(16, 1000), thorough=(16, 20000)),
 ]
